@@ -890,22 +890,9 @@ impl Family for C11 {
                 }
             }
         }
-        // drop faults (keeping the class tag is enforced by the minimiser through tags)
-        for at in shrink_list(&s.plan.at) {
-            out.push(S11 { plan: FaultPlan { at, capacity: s.plan.capacity }, ..s.clone() });
-        }
-        if s.plan.capacity.is_some() {
-            out.push(S11 { plan: FaultPlan { at: s.plan.at.clone(), capacity: None }, ..s.clone() });
-        }
-        // make short transfers longer (simpler)
-        for (i, (_, f)) in s.plan.at.iter().enumerate() {
-            if let Fault::Short(k) = f {
-                if *k + 1 < s.word.bytes() {
-                    let mut t = s.clone();
-                    t.plan.at[i].1 = Fault::Short(k + 1);
-                    out.push(t);
-                }
-            }
+        // simpler fault plans (the class tag is preserved by the minimiser through the tags)
+        for plan in s.plan.shrink(s.word.bytes()) {
+            out.push(S11 { plan, ..s.clone() });
         }
         out
     }
